@@ -576,20 +576,17 @@
         }
     }
 
-    /// haystack: three chars of lengths (1|2) so that multi-byte boundaries occur; returns (buf, len, is_boundary[])
-    fn driver_hay() -> ([u8; 4], usize, [bool; 5]) {
-        let two: bool = kani::any();
-        let a: u8 = kani::any();
-        let b: u8 = kani::any();
-        kani::assume(a < 128 && b < 128);
+    /// Concrete 3-char haystacks (the oracle makes the text irrelevant except for its char boundaries):
+    /// "abc" (boundaries 0,1,2,3) or "a\u{e9}b" (4 bytes, boundaries 0,1,3,4). Returns (buf, len, is_boundary[]).
+    fn driver_hay_of(two: bool) -> ([u8; 4], usize, [bool; 5]) {
         if two {
-            // a, U+00E9 (C3 A9), b
-            ([a, 0xC3, 0xA9, b], 4, [true, true, false, true, true])
+            ([b'a', 0xC3, 0xA9, b'b'], 4, [true, true, false, true, true])
         } else {
-            let c: u8 = kani::any();
-            kani::assume(c < 128);
-            ([a, b, c, 0], 3, [true, true, true, true, false])
+            ([b'a', b'b', b'c', 0], 3, [true, true, true, true, false])
         }
+    }
+    fn driver_hay() -> ([u8; 4], usize, [bool; 5]) {
+        driver_hay_of(true)
     }
 
     fn init_oracle(len: usize, bnd: &[bool; 5]) {
@@ -717,54 +714,72 @@
         kani::cover!(found);
     }
 
-    // @obligation name=f3_bt_matches_iteration props=C09,C06:t fn=exec::Matches::new,exec::Matches::next,classicalbacktrack::BacktrackExecutor::next_match,classicalbacktrack::BacktrackExecutor::initial_position kind=bounded bound="haystack of 3 chars (3-4 bytes), every start offset 0..=len+1; interpreter = oracle; up to 6 calls of next()" min_checks=500 w=4 timeout=1800
-    // Matches::new/next yield exactly unfold(first match at or after cursor; cursor := end if non-empty else next
-    // boundary after end): ranges increase and do not overlap, at most (chars+1) matches, None is sticky, and a start
-    // beyond the end yields nothing.
-    #[kani::proof]
-    #[kani::unwind(7)]
-    #[kani::stub(MatchAttempter::try_at_pos, oracle_try_at_pos)]
-    #[kani::stub(BacktrackExecutor::successful_match, sm_stub)]
-    fn f3_bt_matches_iteration() {
-        let (buf, len, bnd) = driver_hay();
-        let text = unsafe { core::str::from_utf8_unchecked(&buf[..len]) };
+    fn f3_body(two: bool) {
+        let (_buf, len, bnd) = driver_hay_of(two);
+        let text: &'static str = if two { "a\u{e9}b" } else { "abc" };
         let input = Utf8Input::new(text, false);
         let re = mk(vec![Insn::Goal], 0, 0, vec![]);
         init_oracle(len, &bnd);
+        // (1) Matches::new: the cursor is `start` if start <= len, otherwise there is no cursor
         let start: usize = kani::any();
         kani::assume(start <= len + 1 && (start > len || bnd[start]));
         let ex = BacktrackExecutor { input, matcher: MatchAttempter::new(&re, input.left_end()) };
         let mut it = crate::exec::Matches::new(ex, start);
-        // spec cursor
-        let mut cursor: Option<usize> = if start <= len { Some(start) } else { None };
-        let mut calls = 0;
-        while calls < 6 {
-            let gm = it.next();
-            let got = gm.as_ref().map(|m| (m.range.start, m.range.end));
-            core::mem::forget(gm);
-            // spec: first boundary p >= cursor with ORACLE[p] = Some
-            let mut expect: Option<(usize, usize)> = None;
-            if let Some(c0) = cursor {
-                let mut p = c0;
-                loop {
-                    if let Some(e) = unsafe { ORACLE[p] } { expect = Some((p, e)); break; }
-                    match next_boundary(p, len, &bnd) { Some(q) => p = q, None => break }
-                }
+        assert!(crate::exec::__verif::cursor(&it).map(|p| input.pos_to_offset(p)) == if start <= len { Some(start) } else { None });
+        // (2) inductive step: from ANY cursor (a boundary, or exhausted) one call of next() returns the first match at or
+        // after the cursor and moves the cursor to its end (one character further after an empty match)
+        let cur: usize = kani::any();
+        kani::assume(cur <= len + 1 && (cur > len || bnd[cur]));
+        crate::exec::__verif::set_cursor(&mut it, if cur <= len { Some(input.left_end() + cur) } else { None });
+        let gm = it.next();
+        let got = gm.as_ref().map(|m| (m.range.start, m.range.end));
+        core::mem::forget(gm);
+        let mut expect: Option<(usize, usize)> = None;
+        if cur <= len {
+            let mut p = cur;
+            loop {
+                if let Some(e) = unsafe { ORACLE[p] } { expect = Some((p, e)); break; }
+                match next_boundary(p, len, &bnd) { Some(q) => p = q, None => break }
             }
-            assert!(got == expect, "iterator = unfold of (first match at or after cursor)");
-            cursor = match expect {
-                None => None,
-                Some((p, e)) => if e != p { Some(e) } else { next_boundary(e, len, &bnd) },
-            };
-            calls += 1;
         }
-        // at most chars+1 = 4 matches, so by the 6th call the iterator is exhausted and stays so
-        assert!(cursor.is_none());
-        let last = it.next();
-        assert!(last.is_none());
+        assert!(got == expect, "next() = first match at or after the cursor");
+        let newcur = crate::exec::__verif::cursor(&it).map(|p| input.pos_to_offset(p));
+        match expect {
+            Some((p, e)) => {
+                assert!(newcur == if e != p { Some(e) } else { next_boundary(e, len, &bnd) }, "cursor advance rule");
+                // progress: the new cursor is strictly beyond the old one, or the iterator is exhausted
+                if let Some(n) = newcur { assert!(n > cur && bnd[n]); }
+            }
+            None => {
+                // exhausted cursors stay exhausted (None is sticky)
+                if cur > len { assert!(newcur.is_none()); }
+            }
+        }
         core::mem::forget(it);
         kani::cover!(start > len);
-        kani::cover!(len == 4);
+        kani::cover!(expect.is_some() && newcur.is_none());
+        kani::cover!(expect.is_none() && cur <= len);
     }
 
+    // @obligation name=f3_bt_matches_iteration_ascii props=C09,C06:t fn=exec::Matches::new,exec::Matches::next,classicalbacktrack::BacktrackExecutor::next_match,classicalbacktrack::BacktrackExecutor::initial_position kind=bounded bound="haystack \"abc\", every start offset 0..=len+1 for new(); ONE call of next() from every cursor state (inductive step); interpreter = arbitrary deterministic oracle" min_checks=500 w=3 timeout=1500
+    // Matches::new sets the cursor to start (none if start > len); each next() returns the first match at or after the
+    // cursor and sets cursor := end if non-empty else the next boundary after end. By induction over the calls the iterator
+    // is the unfold of that rule: increasing non-overlapping ranges, at most chars+1 matches, None sticky.
+    #[kani::proof]
+    #[kani::unwind(7)]
+    #[kani::stub(MatchAttempter::try_at_pos, oracle_try_at_pos)]
+    #[kani::stub(BacktrackExecutor::successful_match, sm_stub)]
+    fn f3_bt_matches_iteration_ascii() {
+        f3_body(false);
+    }
+
+    // @obligation name=f3_bt_matches_iteration_multibyte props=C09,C06:t fn=exec::Matches::new,exec::Matches::next,classicalbacktrack::BacktrackExecutor::next_match kind=bounded bound="haystack \"a\u{e9}b\" (a 2-byte char in the middle), every start boundary and len+1 for new(); ONE call of next() from every cursor state (inductive step); interpreter = arbitrary deterministic oracle" min_checks=500 w=3 timeout=1500
+    // The same unfold specification when advancing past an empty match must skip a whole multi-byte character.
+    #[kani::proof]
+    #[kani::unwind(7)]
+    #[kani::stub(MatchAttempter::try_at_pos, oracle_try_at_pos)]
+    #[kani::stub(BacktrackExecutor::successful_match, sm_stub)]
+    fn f3_bt_matches_iteration_multibyte() {
+        f3_body(true);
+    }
 }
